@@ -1,6 +1,3 @@
-import re
-
-
 SPARSE_SUFFIX = "_sparse"
 
 
@@ -71,10 +68,8 @@ def check_attrs(obj, solver, required_attr, support_sparse=False):
         required_attr = [_join_attrs_with_or(attrs, suffix) for attrs in required_attr]
 
         # get name obj and solver
-        name_matcher = re.compile(r"\.(\w+)'>")
-
-        obj_name = name_matcher.search(str(obj.__class__)).group(1)
-        solver_name = name_matcher.search(str(solver.__class__)).group(1)
+        obj_name = obj.__class__.__name__
+        solver_name = solver.__class__.__name__
 
         if not support_sparse:
             err_message = f"{obj_name} is not compatible with solver {solver_name}."
